@@ -2,7 +2,7 @@
    Only statements here; proofs are in Keys.v, SketchProofs.v, BloomProofs.v, TinyLFUProofs.v,
    PolicyProofs.v, CacheNoPanic.v, CacheInv.v. *)
 From StrettoModel Require Import Base Metrics Sketch SketchProofs Bloom BloomProofs TinyLFU TinyLFUProofs Policy PolicyProofs
-  Ttl Store Cache Keys CacheProofs CacheInv CacheNoPanic PolicyLive CacheNoDeadlock.
+  Ttl Store Cache Keys CacheProofs CacheInv CacheNoPanic PolicyLive CacheNoDeadlock CacheGlobalProgress.
 Open Scope N_scope.
 
 (* The builder rejects exactly zero num_counters, zero max_cost, zero buffer size, with that error
@@ -125,3 +125,20 @@ Theorem C20_blocked_call_has_a_moving_processor :
   (exists h st' o, cstep c st (LProc h) = StepOk st' o).
 Proof. exact blocked_call_has_a_moving_processor. Qed.
 Print Assumptions C20_blocked_call_has_a_moving_processor.
+
+(* NO REACHABLE DEADLOCK.  In every reachable state of either flavour — any history, schedule,
+   accepted configuration — in which some client operation is in flight, somebody can move: that
+   client itself (every point of every operation other than the five waiting points is a total
+   step), the cache processor, or the policy worker.  With weak fairness of the two select! loops
+   every operation therefore completes. *)
+Theorem C20_no_reachable_deadlock :
+  forall c mc t now st a,
+  tl_wf t -> 0 < c_buf_cap c ->
+  reach_u64 c (cinit c mc t now) st ->
+  N.of_nat (length (s_start st)) <= Consts.NUM_TO_KEEP ->
+  client_of st a <> KIdle ->
+  (exists st' o, cstep c st (LClient a) = StepOk st' o) \/
+  (exists h st' o, cstep c st (LProc h) = StepOk st' o) \/
+  (exists h st' o, cstep c st (LWorker h) = StepOk st' o).
+Proof. exact no_reachable_deadlock. Qed.
+Print Assumptions C20_no_reachable_deadlock.
